@@ -572,8 +572,40 @@ type fsCrashState struct {
 	// cleanupFailed: the last Merge reported ErrPostCommitCleanup (its source removals may not
 	// be durable and the caller was told so); cleared once every directory change is durable.
 	cleanupFailed bool
-	K             int
-	fin           bool
+	// committed: the running Merge's MetaStore.Update has returned — the file system store has
+	// removed the sources from the directory; from here on a process crash must not show them.
+	committed           bool
+	removeFaultsAtMerge int
+	K                   int
+	fin                 bool
+}
+
+// removeFaults counts the injected failures of os.Remove so far.
+func (st *fsCrashState) removeFaults() int {
+	st.r.mu.Lock()
+	defer st.r.mu.Unlock()
+	n := 0
+	for k, v := range st.r.FaultCt {
+		if strings.HasSuffix(k, ":os.remove") {
+			n += v
+		}
+	}
+	return n
+}
+
+// commitMarker passes every MetaStore call through to the file system store and notes when an
+// Update carrying deletes (a merge commit) has returned.
+type commitMarker struct {
+	bs.MetaStore
+	st *fsCrashState
+}
+
+func (c *commitMarker) Update(ctx context.Context, writes []bs.WriteOperation, deletes []bs.DeleteOperation) error {
+	err := c.MetaStore.Update(ctx, writes, deletes)
+	if len(deletes) > 0 {
+		c.st.committed = true
+	}
+	return err
 }
 
 // recover opens a fresh store and engine over an image and returns the ids a match-all query
@@ -650,7 +682,13 @@ func (st *fsCrashState) checkImage(kind, desc string, img *simos.FS) {
 			// window: the output is published before the sources are (durably) removed. That is
 			// known finding F7; anything else is reported under its own kind.
 			k := "duplicate-rows-merge-window-" + kind
-			if !st.merging && !(st.cleanupFailed && kind == "power-loss") {
+			// The window of F7 ends, for a process crash, when the merge's Update has returned
+			// (the store's commit point); for a power loss it lasts until the Merge call is over
+			// (the removal becomes durable with the directory fsyncs of Update / TombstoneFile).
+			// (An injected failure of one of Update's removals keeps the window open: the source
+			// then stays until TombstoneFile removes it, which is the same missing atomicity.)
+			inWindow := st.merging && !(st.committed && kind == "process-crash" && st.removeFaults() == st.removeFaultsAtMerge)
+			if !inWindow && !(st.cleanupFailed && kind == "power-loss") {
 				k = "duplicate-rows-" + kind
 				if resurrected {
 					k = "duplicate-rows-removed-file-resurrected-" + kind
@@ -724,7 +762,7 @@ func runFsCrash(r *Run) {
 		cfg.PartitionFunc = partitionByP
 	}
 	st.cfg = cfg
-	eng, err := bs.NewBloomSearchEngine(cfg, st.store, st.store)
+	eng, err := bs.NewBloomSearchEngine(cfg, &commitMarker{MetaStore: st.store, st: st}, st.store)
 	if err != nil {
 		panic(err)
 	}
@@ -786,7 +824,7 @@ func runFsCrash(r *Run) {
 			case "flush":
 				eng.Flush(context.Background())
 			case "merge":
-				st.merging = true
+				st.merging, st.committed, st.removeFaultsAtMerge = true, false, st.removeFaults()
 				_, err := eng.Merge(context.Background())
 				st.merging = false
 				if err == nil {
